@@ -108,6 +108,8 @@ def resolve (s : St) (followLast : Bool) : Nat → Path → List Bytes → RR
       | none => if rest = [] then .ok p else .enoent
 
 def resolveRR (s : St) (followLast : Bool) (path : Bytes) : RR :=
+  -- POSIX: the empty path names nothing (ENOENT)
+  if path = [] then .enoent else
   match mapAbs s path with
   | none => .enoent
   | some path =>
